@@ -342,7 +342,7 @@ def run(ctx):
     binp = ctx.go_build_test(PKG, FILES)
     rn = Runner(ctx, binp)
     cfgs = configs(ctx)
-    reps = ctx.pick(1, 3)
+    reps = ctx.pick(1, 2)
     trace = []
     scen = []          # per scenario: dict(cfg, run, point, result)
     inconclusive = []
